@@ -2,6 +2,8 @@ import SuxModel.Base.Proto
 import SuxModel.BitVec.Runner
 import SuxModel.BitFieldVec.Runner
 import SuxModel.RankSel.Runner
+import SuxModel.Lender.Runner
+import SuxModel.SigStore.Runner
 /-!
 # `suxdrv <runner>` : line-protocol driver over the executable model definitions
 -/
@@ -20,7 +22,9 @@ partial def loop (h : IO.FS.Stream) (out : IO.FS.Stream) (R : Runner) (s : R.σ)
 def runners : List (String × Runner) := [
   ("bitvec", Sux.BV.runner),
   ("bfv", Sux.BFV.runner),
-  ("ranksel", Sux.RS.runner)
+  ("ranksel", Sux.RS.runner),
+  ("lender", Sux.Lender.runner),
+  ("sigstore", Sux.SigStore.runner)
 ]
 
 def main (args : List String) : IO UInt32 := do
